@@ -1,6 +1,6 @@
 ---- MODULE MC_Core2 ----
 EXTENDS BDDSpec
 N2 == <<"a", "b">>
-CoreActions == {"var", "ite", "drop", "gc", "swap", "dup", "dropgc"}
+CoreActions == {"var", "build", "ite", "drop", "gc", "swap", "dup", "dropgc"}
 No == FALSE
 ====
